@@ -61,12 +61,24 @@ def run(ctx):
         if n <= 3:
             ctx.sample({"driver": list(spec), "first_events": [x.strip() for x in lines[:6]]})
         cfg = "CacheTraceP.cfg" if spec[0] == "bigrand" else ("CacheTrace_big.cfg" if spec[3] > 16 else "CacheTrace.cfg")
-        rej = ctx.validate("Cache/CacheTrace.tla", cfg, t, dfs=True)
-        for x in rej:
+        for x in validate2(ctx, cfg, t):
             ctx.violation("trace08:%s" % sig(x), "cache trace not a behaviour of Cache (C08 strict) at %s" % x["event"][:160], x["path"])
         os.remove(t)
     ctx.extra["rule"] = ("executions = Reset-delimited operation sequences run against the real cache with stats() after each; "
                          "distinct = distinct event texts among the first 4000 events of each driver run")
+
+
+def validate2(ctx, cfg, t):
+    """first with the search heuristic VERIF_STRICT (expired victims in deadline order: little branching); an execution
+    rejected that way is judged again without it - only that verdict counts (any expired victim is legal)."""
+    out = []
+    for x in ctx.validate("Cache/CacheTrace.tla", cfg, t, dfs=True, env={"VERIF_STRICT": "1"}):
+        again = ctx.validate("Cache/CacheTrace.tla", cfg, x["path"], dfs=True, timeout=1500)
+        if again:
+            out.append(x)
+        else:
+            ctx.drift.append("expired victims not taken in deadline order (legal; slower search) at %s" % x["event"][:120])
+    return out
 
 
 def pressure_scripts(ctx):
@@ -96,7 +108,7 @@ def pressure_scripts(ctx):
         if i == 0:
             ctx.sample({"pressure-script": [x for x in open(t).read().splitlines() if '"Store"' in x][-4:]})
         cfg = "CacheTraceP.cfg" if 3 + n + 3 <= 16 else "CacheTraceP_big.cfg"
-        for x in ctx.validate("Cache/CacheTrace.tla", cfg, t, dfs=True):
+        for x in validate2(ctx, cfg, t):
             ctx.violation("pressure:%s" % sig(x), "process-shared cache under memory pressure: not a behaviour of Cache (eviction order / stats) at %s" % x["event"][:160], x["path"])
         os.remove(t)
 
